@@ -549,8 +549,13 @@ func (g *genCtx) famDefaults() []*plan {
 type quota struct{ stream, docbomb, rawlen, structure, nesting, images int }
 
 // allPlans draws the run's cases: deterministic in (seed, tier).
-func allPlans(rngFor func(name string) *rand.Rand, thorough bool) []*plan {
+func allPlans(rngFor func(name string) *rand.Rand, thorough bool, tab map[string]decRow) []*plan {
 	g := newGenCtx(thorough)
+	if tab != nil {
+		g.decodes = func(site, container string, decodeAll, strict bool, entry string) bool {
+			return tab[decKey(site, container, decodeAll, strict)][entry] != ""
+		}
+	}
 	q := quota{stream: 58, docbomb: 86, rawlen: 28, structure: 36, nesting: 20, images: 20}
 	if thorough {
 		q = quota{stream: 700, docbomb: 1100, rawlen: 330, structure: 420, nesting: 240, images: 204}
@@ -563,6 +568,18 @@ func allPlans(rngFor func(name string) *rand.Rand, thorough bool) []*plan {
 	out = append(out, pickStrata(rngFor("nesting"), g.famNesting(), q.nesting)...)
 	out = append(out, pickStrata(rngFor("images"), g.famImages(), q.images)...)
 	out = append(out, g.famDefaults()...)
+	{
+		// every (filter, predictor) x shape x site cell once beyond the limit in the thorough tier (1008 cells),
+		// every (filter, predictor family) pair at stream level and in a document in the quick tier (18 cells)
+		beyond, within, huge := g.famPredPipes(rngFor("predpipe"))
+		qb, qw, qh := 18, 9, 6
+		if thorough {
+			qb, qw, qh = 1008, 504, 84
+		}
+		out = append(out, pickStrata(rngFor("predpipe-beyond"), beyond, qb)...)
+		out = append(out, pickStrata(rngFor("predpipe-within"), within, qw)...)
+		out = append(out, pickStrata(rngFor("predpipe-huge"), huge, qh)...)
+	}
 	for i, p := range out {
 		p.c.I = i
 	}
